@@ -65,6 +65,16 @@ def gen(rng):
     return prog
 
 
+# the NUMBER of applications / scopes is not limited: many successive applications, a long loop applying a macro, an application after many blocks,
+# and a deep (terminating) recursion expand completely
+MANY = [
+    ("250 successive applications", "*=0x008000\n.macro one(v) {\n.db v\n}\n" + "".join(f"one({i})\n" for i in range(250)), bytes(range(250))),
+    ("a 150-iteration loop applying a macro", "*=0x008000\n.macro one(v) {\n.db v\n}\n.for i := 0, 150 {\none(i)\n}\n", bytes(range(150))),
+    ("an application after 220 blocks", "*=0x008000\n.macro one(v) {\n.db v\n}\n" + "{\nnop\n}\n" * 220 + "one(7)\n", b"\xea" * 220 + b"\x07"),
+    ("recursion of depth 120 ended by .if", "*=0x008000\n.macro down(n) {\n.db n\n.if n {\ndown(n - 1)\n}\n}\ndown(120)\n", bytes(range(120, -1, -1))),
+]
+
+
 def check(case):
     rng = random.Random(case["seed"])
     prog = gen(rng)
@@ -104,18 +114,29 @@ def run(tier, seed):
             samples.append(src)
         if f and len(failures) < 8:
             failures.append({"ident": "bounded/twin-macros", "script": "b_C09.py", "payload": case, "observed": f + " :: " + src[-500:].replace("\n", " / ")})
+    for k, (what, src, want) in enumerate(MANY):
+        res = assemble(src)
+        got = b"".join(b for _a, b in res["blocks"]) if res["status"] == "ok" else None
+        if got != want:
+            failures.append({"ident": "bounded/many-applications", "script": "b_C09.py", "payload": {"many": k},
+                             "observed": f"{what}: {res['status']} {(res['error'] or res['exc'] or '')[:120]} / {None if got is None else got.hex()[:40]} expected {want.hex()[:40]}"})
     for k, (what, src) in enumerate(ERRORS):
         res = assemble(src)
         if res["status"] == "ok":
             failures.append({"ident": "bounded/macro-errors", "script": "b_C09.py", "payload": {"error": k}, "observed": f"{what}: assembled instead of failing"})
-    return {"evaluations": n + len(ERRORS), "distinct_nontrivial": len(distinct) + len(ERRORS),
-            "rule": "seeded programs with 5 macros (0-3 parameters, parameters named like outer constants, nested application, recursion ended by .if, "
+    return {"evaluations": n + len(ERRORS) + len(MANY), "distinct_nontrivial": len(distinct) + len(ERRORS) + len(MANY),
+            "rule": "4 programs with very many applications / scopes / recursion levels; seeded programs with 5 macros (0-3 parameters, parameters named like outer constants, nested application, recursion ended by .if, "
                     "code-block parameter spliced from a nested scope) applied 2-7 times with literal / constant / backward-label / forward-label / "
                     "coinciding-name arguments, inside blocks that redefine the names and inside loops; vs the reference inlining; 4 error programs",
             "samples": samples, "failures": failures}
 
 
 def replay(payload):
+    if "many" in payload:
+        what, src, want = MANY[payload["many"]]
+        res = assemble(src)
+        got = b"".join(b for _a, b in res["blocks"]) if res["status"] == "ok" else None
+        return {"failed": got != want, "observed": f"{what}: {res['status']}"}
     if "error" in payload:
         res = assemble(ERRORS[payload["error"]][1])
         return {"failed": res["status"] == "ok", "observed": res["status"]}
